@@ -30,6 +30,7 @@ class Exec(ExprMixin, CallMixin):
         self.exits = []
         self.fuel_stack = []
         self.fuel_left = {}
+        self.dry_running = set()
         self.unfolding = set()
         self.in_old = False
         self.loop_ord = {}
@@ -188,6 +189,7 @@ class Exec(ExprMixin, CallMixin):
             except Unsupported as e:
                 raise ContractError('%s: return value of type %s does not fit declared %s' % (c.name, val.t, rt))
             env = {'result': res}
+            self.use_lemmas(c.at_exit, st, env)
             for i, e in enumerate(c.ensures):
                 o = eng.obl('post', 'ensures#%d' % i, e)
                 g = self.spec_eval(e, st, env)
@@ -227,6 +229,7 @@ class Exec(ExprMixin, CallMixin):
     def _old_view(self, st):
         o = st.old.copy()
         o.pc = st.pc
+        o.pcd = st.pcd
         o.axd = st.axd
         o.old = st.old
         return o
@@ -532,10 +535,19 @@ class Exec(ExprMixin, CallMixin):
 
     def merge2(self, a, b):
         n = common_prefix(a.pc, b.pc)
-        ca, cb = zand(a.pc[n:]), zand(b.pc[n:])
+        ca = zand([z for z, d in zip(a.pc[n:], a.pcd[n:]) if d])
+        cb = zand([z for z, d in zip(b.pc[n:], b.pcd[n:]) if d])
         m = State(self.eng)
         m.old = a.old
-        m.pc = a.pc[:n] + [z3.Or(ca, cb)]
+        m.pc = a.pc[:n]
+        m.pcd = a.pcd[:n]
+        for z, d in zip(a.pc[n:], a.pcd[n:]):
+            if not d:
+                m.assume(z3.Implies(ca, z))
+        for z, d in zip(b.pc[n:], b.pcd[n:]):
+            if not d:
+                m.assume(z3.Implies(cb, z))
+        m.assume(z3.Or(ca, cb))
         m.axd = {**a.axd, **b.axd}
         for nm in set(a.locals) | set(b.locals):
             va, vb = a.locals.get(nm), b.locals.get(nm)
@@ -576,8 +588,8 @@ class Exec(ExprMixin, CallMixin):
             out.normal = o1.normal
             return out
         a, b = st.copy(), st
-        a.assume(c)
-        b.assume(z3.Not(c))
+        a.assume(c, True)
+        b.assume(z3.Not(c), True)
         o1 = self.block(s.body, a)
         o2 = self.block(s.orelse, b)
         out.absorb(o1)
@@ -650,7 +662,8 @@ class Exec(ExprMixin, CallMixin):
             for n in ast.walk(root):
                 if isinstance(n, ast.Attribute) and isinstance(n.ctx, (ast.Store, ast.Del)):
                     keys.add(('f', n.attr))
-                    keys.add(('has', n.attr))
+                    if self.has_live(('has', n.attr), st):
+                        keys.add(('has', n.attr))
                 if isinstance(n, ast.Subscript) and isinstance(n.ctx, (ast.Store, ast.Del)):
                     all_lists = all_dicts = True
                 if isinstance(n, ast.AugAssign):
@@ -671,7 +684,8 @@ class Exec(ExprMixin, CallMixin):
                                 all_dicts = True
                             else:
                                 keys.add(('f', m.field))
-                                keys.add(('has', m.field))
+                                if self.has_live(('has', m.field), st):
+                                    keys.add(('has', m.field))
                         if callee.allocates:
                             keys.add(('alloc',))
                     if isinstance(f, ast.Name) and f.id in self.eng.prop.classes:
@@ -685,6 +699,9 @@ class Exec(ExprMixin, CallMixin):
                 if isinstance(n, ast.Subscript) and isinstance(n.slice, ast.Slice):
                     keys.add(('alloc',))
         return keys, all_lists, all_dicts
+
+    def has_live(self, key, st):
+        return key in st.heap or self.eng.hkey(key) in self.eng._init_heap
 
     def resolve_static(self, call):
         """Best-effort static resolution of a call to a contract (for havoc computation)."""
@@ -822,6 +839,7 @@ class Exec(ExprMixin, CallMixin):
         pre = self.havoc(head, names | self.hidden_names(ordn), hkeys, al, ad, lc)
         self.loop_frame_assume(head, pre, lc)
         self.assume_inv(lc, head, env0(head))
+        self.use_lemmas(lc.at_head, head, env0(head))
         head_snapshot = head.copy()
         meas0 = None
         if lc.decreases is not None:
@@ -831,8 +849,8 @@ class Exec(ExprMixin, CallMixin):
         c = cond_fn(body_st)
         self.take_exits(out)
         exit_st = body_st.copy()
-        body_st.assume(c)
-        exit_st.assume(z3.Not(c))
+        body_st.assume(c, True)
+        exit_st.assume(z3.Not(c), True)
         if z3.is_true(z3.simplify(c)):
             exit_st = None
         # 4. body
@@ -848,6 +866,7 @@ class Exec(ExprMixin, CallMixin):
         for s, how in backs:
             step_fn(s)
             self.take_exits(out)
+            self.use_lemmas(lc.at_end, s, env0(s))
             self.check_inv(lc, s, head_snapshot, 'inv-keep', 'loop%d' % ordn, env0(s), how)
             self.loop_frame_check(s, head_snapshot, lc, ordn, how)
             if meas0 is not None:
@@ -988,9 +1007,17 @@ class Exec(ExprMixin, CallMixin):
             lc2 = self._with_bounds(lc2, '%s <= len(%s)' % (iname, sname))
         return self.run_loop(s, st, lambda st0: envf, cond, step, ordn, lc2)
 
+    def use_lemmas(self, texts, st, env):
+        """Ghost hints: conjunctions of lemma calls; each adds the proved lemma's instance as a hypothesis."""
+        for t in texts:
+            g = self.spec_eval(t, st, env)
+            if not z3.is_true(z3.simplify(g)):
+                raise ContractError('%s: hint %r is not a pure lemma application' % (self.c.name, t))
+
     def _with_bounds(self, lc, extra):
         l2 = Loop(inv=[extra] + list(lc.inv), decreases=lc.decreases, index=lc.index, seq=lc.seq, locals=lc.locals,
-                  modifies=lc.modifies, lemmas=lc.lemmas, havoc_extra=lc.havoc_extra, keep=lc.keep)
+                  modifies=lc.modifies, lemmas=lc.lemmas, havoc_extra=lc.havoc_extra, keep=lc.keep,
+                  at_end=lc.at_end, at_head=lc.at_head)
         return l2
 
     def for_hook(self, s, st, src, ordn, lc):
@@ -1034,10 +1061,15 @@ class Exec(ExprMixin, CallMixin):
             return mk_seq(kt, n, ks)
         svt = self.eng.storage(vt)
         if mode == 'values':
-            arr = z3.Lambda([i], z3.Select(val, z3.Select(ks, i)))
+            arr = z3.Const(fresh_name('dvs'), z3.ArraySort(z3.IntSort(), svt.sort()))
+            st.assume(z3.ForAll([i], z3.Implies(z3.And(0 <= i, i < n), z3.Select(arr, i) == z3.Select(val, z3.Select(ks, i))),
+                                patterns=[z3.Select(arr, i)]))
             return mk_seq(vt, n, arr)
         tt = T.Tuple([kt, vt])
-        arr = z3.Lambda([i], tt.mk([z3.Select(ks, i), z3.Select(val, z3.Select(ks, i))]))
+        arr = z3.Const(fresh_name('dis'), z3.ArraySort(z3.IntSort(), tt.sort()))
+        st.assume(z3.ForAll([i], z3.Implies(z3.And(0 <= i, i < n),
+                                            z3.Select(arr, i) == tt.mk([z3.Select(ks, i), z3.Select(val, z3.Select(ks, i))])),
+                            patterns=[z3.Select(arr, i)]))
         return mk_seq(tt, n, arr)
 
     def run_from_loop(self, st, ordn):
@@ -1126,13 +1158,13 @@ class Exec(ExprMixin, CallMixin):
             iff = cond.startswith('iff:')
             cz = self.spec_eval(cond[4:] if iff else cond, pre.copy(), env, old=pre)
             e = st.copy()
-            e.assume(cz)
+            e.assume(cz, True)
             e.old = my_old
             for x in c.exc_ensures.get(exc, []):
                 e.assume(self.spec_eval(x, e, env, old=pre))
             self.exits.append((e, exc, 'call %s' % c.name))
             if iff:
-                st.assume(z3.Not(cz))
+                st.assume(z3.Not(cz), True)
         env2 = dict(env, result=res)
         for e in c.ensures:
             st.assume(self.spec_eval(e, st, env2, old=pre))
